@@ -399,6 +399,7 @@ func check(prop, tier string) int {
 	var mu sync.Mutex
 	var sums []WorkerSummary
 	var viols []RunResult
+	var knownRuns []RunResult
 	var knownHits = map[string]int{}
 	var nondet []string
 	var trouble []string
@@ -434,6 +435,10 @@ func check(prop, tier string) int {
 					var r RunResult
 					_ = json.Unmarshal(m["result"], &r)
 					viols = append(viols, r)
+				case "known":
+					var r RunResult
+					_ = json.Unmarshal(m["result"], &r)
+					knownRuns = append(knownRuns, r)
 				case "nondeterminism":
 					raw, _ := json.Marshal(m)
 					nondet = append(nondet, string(raw))
@@ -543,6 +548,27 @@ func check(prop, tier string) int {
 		violLines = append(violLines, fmt.Sprintf("VIOLATION property=%s replay=%s", prop, path))
 		fmt.Printf("violation: %s: %s\n", sig, v.Violations[0].Detail)
 		exit = 1
+	}
+	if os.Getenv("VERIF_REFRESH_KNOWN") != "" {
+		// maintenance (never part of a registered command): re-record the replay file of a
+		// known finding from a run of this batch, after harness or library changes have
+		// shifted the old tape
+		for _, f := range knownHere {
+			for _, r := range knownRuns {
+				if !moveSigFirst(&r, f.Signature) {
+					continue
+				}
+				if path, ok := minimiseAndStore(bin, scratch, prop, r, tier); ok {
+					dst := filepath.Join(verifDir, f.Replay)
+					if b, err := os.ReadFile(path); err == nil {
+						_ = os.WriteFile(dst, b, 0o644)
+						_ = os.Remove(path)
+						fmt.Printf("refreshed %s from seed %d\n", dst, r.Spec.Seed)
+					}
+				}
+				break
+			}
+		}
 	}
 	for _, f := range knownHere {
 		fmt.Printf("KNOWN-FINDING: property=%s %s [signature %s; hit in %d of %d runs]\n", prop, f.What, f.Signature, knownHits[f.Signature], agg.Runs)
